@@ -127,6 +127,8 @@ add("C13",
 
 add("C15",
     "PARTIAL. Coq theorems over Model/S3.v: listing by pages of any size >= 1 equals the unpaged listing (induction over the page sequence), "
+    "the recursive listing of a path is exactly the subtree below `path/` (segments lemma: `obj10/..` is not below `obj1`) and purge_object "
+    "removes exactly that subtree, "
     "laws of paths::join (unit tests as lemmas, unit, single slash at the seam, associativity), keys <-> file tree bijection, exact prefix "
     "stripping for EVERY given prefix (S3Client::new trims trailing slashes: client_prefix), list_objects returns exactly the object roots of the bucket. Search: the same "
     "generated histories driven through the real library on a filesystem repository and on a local TLS S3 stand-in (bucket root / nested prefix, "
@@ -254,7 +256,8 @@ add("C04",
     "(EIO/ENOSPC/EACCES rotated; all three in the thorough tier) and hit once by SIGINT; outcome class and exit status match the model; "
     "then retry and, in a second copy, reset are run and the results validated with the independent validator and rocfl validate.",
     "Trusted: Coq kernel, Model/FsTree.v + Model/Commit.v, strace, the tree abstraction in vplib/commitlib.py, vplib/ocflv.py. A fault inside a "
-    "partially completed write is modelled as truncate + partial file. Known finding: upgrade-declaration-fault. Faults in the staging "
+    "partially completed write is modelled as truncate + partial file. No known class is left (the upgrade declaration swap is rolled back "
+    "since f6ecfaf). Faults are injected into mutating AND non-mutating calls (reads go through the ORead oracle of Corr.CheckCommit). Faults in the staging "
     "clean-up (rmdir) and in the staged declaration rewrite of a never-committed object - repaired by 9d3a720, 7857f07, 9f4b67d - are "
     "must-pass regression inputs (Examples C04_retry_after_cleanup_fault / C04_retry_after_staged_declaration_fault).",
     "machine-checked proof in Coq (all fault / stop positions of the commit programs) + single-fault enumeration of the real commit under strace")
@@ -268,7 +271,9 @@ add("C05",
     "declaration files; the three clauses are evaluated on the real trees, invalid states must be rejected by BOTH the independent "
     "validator and rocfl validate; outcome classes match the model at every aligned position.",
     "Process-kill model (calls already made are durable and ordered) is the property's stated model and is assumed. Type-changing commits "
-    "(upgrade) are correspondence-checked only.",
+    "(upgrade) are correspondence-checked only. After every kill of the dedup scenarios the stale lock is removed and the commit retried: a "
+    "successful retry must give a valid object with every ingested content readable, a refused one must leave every ingested content in "
+    "staging or in the object (recovery clause).",
     "machine-checked proof in Coq (all kill positions) + kill enumeration of the real commit under strace")
 
 
